@@ -66,33 +66,165 @@ Proof.
   unfold zrange. intros [H0 H1]. repeat split; try lia.
 Qed.
 
-Section P.
+(* ---- the array count loop ------------------------------------------------------------------------------ *)
+Section LoopP.
 Variables TxV BlockV HdrV : Type.
-Variable parse_T : parser TxV.
-Variable stream_T : TxV -> bytes.
-Variable parse_B : parser BlockV.
-Variable stream_B : BlockV -> bytes.
-Variable parse_z : parser HdrV.
-Variable stream_z : HdrV -> bytes.
-Variable header_of : BlockV -> HdrV.
-Variable ip4 : bytes.
-Variable ict : list Z.
-(* the only facts used about the transaction / block / header codecs (C07, C14) *)
-Hypothesis frame_T : forall v rest, parse_T (stream_T v ++ rest) = Ret (v, rest).
-Hypothesis frame_B : forall v rest, parse_B (stream_B v ++ rest) = Ret (v, rest).
-Hypothesis frame_z : forall v rest, parse_z (stream_z v ++ rest) = Ret (v, rest).
-
 Notation pyv := (pyval TxV BlockV HdrV).
-Notation sc := (stream_codec stream_T stream_B stream_z header_of).
-Notation pc := (parse_codec parse_T parse_B parse_z ip4 ict).
-Notation ss := (stream_struct stream_T stream_B stream_z header_of).
-Notation ps := (parse_struct parse_T parse_B parse_z ip4 ict).
-Notation wire_ := (wire stream_T stream_B stream_z).
-Notation wire_tuple_ := (wire_tuple stream_T stream_B stream_z).
-Notation wire_elem_ := (wire_elem stream_T stream_B stream_z).
-Notation wire_field_ := (wire_field stream_T stream_B stream_z).
-Notation wire_message_ := (wire_message stream_T stream_B stream_z).
+Variable elem : parser pyv.
 
+Lemma iter_done m r : Nat.iter m (step elem) (Done r) = Done r.
+Proof.
+  induction m as [|m IH]; [reflexivity|].
+  change (Nat.iter (S m) (step elem) (Done r)) with (step elem (Nat.iter m (step elem) (Done r))).
+  now rewrite IH.
+Qed.
+
+Lemma iter_add (m n : nat) (st : lstate TxV BlockV HdrV) :
+  Nat.iter (m + n) (step elem) st = Nat.iter m (step elem) (Nat.iter n (step elem) st).
+Proof.
+  induction m as [|m IH]; [reflexivity|].
+  change (Nat.iter (S m + n) (step elem) st) with (step elem (Nat.iter (m + n) (step elem) st)).
+  change (Nat.iter (S m) (step elem) (Nat.iter n (step elem) st))
+    with (step elem (Nat.iter m (step elem) (Nat.iter n (step elem) st))).
+  now rewrite IH.
+Qed.
+
+Lemma iter_succ_r (n : nat) (st : lstate TxV BlockV HdrV) :
+  Nat.iter (S n) (step elem) st = Nat.iter n (step elem) (step elem st).
+Proof. replace (S n) with (n + 1)%nat by lia. rewrite iter_add. reflexivity. Qed.
+
+(* loopk k = 2^k applications of step *)
+Lemma loopk_iter k : forall st, loopk elem k st = Nat.iter (2 ^ k) (step elem) st.
+Proof.
+  induction k as [|k IH]; intros st.
+  - destruct st; reflexivity.
+  - destruct st as [c acc s | r].
+    + cbn [loopk]. rewrite !IH, <- iter_add. f_equal. rewrite Nat.pow_succ_r'. lia.
+    + cbn [loopk]. now rewrite iter_done.
+Qed.
+
+Lemma iter_run : forall es enc acc rest,
+  Forall2 (fun e b => forall r, elem (b ++ r) = Ret (e, r)) es enc ->
+  Nat.iter (S (length es)) (step elem) (Running (N.of_nat (length es)) acc (concat enc ++ rest))
+  = Done (Ret (rev acc ++ es, rest)).
+Proof.
+  intros es enc acc rest H. revert acc. induction H as [|e b es enc He _ IH]; intros acc.
+  - cbn [length concat app Nat.iter nat_rect step N.of_nat N.eqb].
+    now rewrite rev_append_rev, !app_nil_r.
+  - rewrite iter_succ_r. cbn [length concat step].
+    replace (N.of_nat (S (length es)) =? 0) with false by lia.
+    rewrite <- app_assoc, He.
+    replace (N.of_nat (S (length es)) - 1) with (N.of_nat (length es)) by lia.
+    rewrite IH. cbn [rev]. now rewrite <- app_assoc.
+Qed.
+
+Lemma loop_capacity : N.of_nat (2 ^ loop_depth) = 36893488147419103232.
+Proof. rewrite Nat2N.inj_pow. reflexivity. Qed.
+
+(* exactly `count` iterations for every count below 2^64: no fuel hypothesis *)
+Lemma parse_array_ok es enc rest :
+  Forall2 (fun e b => forall r, elem (b ++ r) = Ret (e, r)) es enc ->
+  N.of_nat (length es) < 2 ^ 64 ->
+  parse_array elem (N.of_nat (length es)) (concat enc ++ rest) = Ret (es, rest).
+Proof.
+  intros H Hlen. unfold parse_array. rewrite loopk_iter.
+  pose proof loop_capacity as Hcap. remember (2 ^ loop_depth)%nat as X eqn:EX. clear EX.
+  change (2 ^ 64) with 18446744073709551616 in Hlen.
+  replace X with ((X - S (length es)) + S (length es))%nat by lia.
+  rewrite iter_add, (iter_run es enc [] rest H), iter_done. reflexivity.
+Qed.
+End LoopP.
+
+(* ---- layouts, association lists (no codec involved) ---------------------------------------------------- *)
+Lemma ftype_of_text_chars ty ft : ftype_of_text ty = Some ft -> ty = chars_of_ftype ft.
+Proof.
+  unfold ftype_of_text. destruct (ftype_guess ty) as [g|]; [|discriminate].
+  destruct (bytes_eqb ty (chars_of_ftype g)) eqn:E; [|discriminate].
+  intros H. injection H as <-. now apply bytes_eqb_eq.
+Qed.
+
+Lemma opt_only_last_cons ft fts :
+  opt_only_last (ft :: fts) = true -> (fts = [] \/ is_opt ft = false) /\ opt_only_last fts = true.
+Proof.
+  destruct fts as [|ft2 fts]; [intros _; split; [now left|reflexivity]|].
+  cbn [opt_only_last]. intros H. apply andb_true_iff in H. destruct H as [H1 H2].
+  apply negb_true_iff in H1. split; [now right|exact H2].
+Qed.
+
+Lemma combine_fst_length {A B C} (l : list (A * B)) (vals : list C) :
+  length vals = length l -> map fst (combine (map fst l) vals) = map fst l.
+Proof.
+  revert vals. induction l as [|[a b] l IH]; intros [|v vals] H; cbn in *; try discriminate; [reflexivity|].
+  f_equal. apply IH. lia.
+Qed.
+
+Lemma layout_ftypes_length layout fts : layout_ftypes layout = Some fts -> length fts = length layout.
+Proof.
+  revert fts. induction layout as [|[nm ty] layout IH]; intros fts H; cbn [layout_ftypes] in H.
+  - now injection H as <-.
+  - destruct (ftype_of_text ty); [|discriminate]. destruct (layout_ftypes layout) eqn:E; [|discriminate].
+    injection H as <-. cbn [length]. now rewrite (IH _ eq_refl).
+Qed.
+
+(* association lists with distinct keys *)
+Lemma nodupb_cons x l : nodupb (x :: l) = true -> ~ In x l /\ nodupb l = true.
+Proof.
+  cbn [nodupb]. intros H. apply andb_true_iff in H. destruct H as [H1 H2]. split; [|exact H2].
+  intros Hin. apply negb_true_iff in H1.
+  assert (existsb (bytes_eqb x) l = true) by (apply existsb_exists; exists x; split; [exact Hin|apply bytes_eqb_refl]).
+  congruence.
+Qed.
+
+Lemma str_lookup_in {A} (d : list (bytes * A)) k v :
+  nodupb (map fst d) = true -> In (k, v) d -> str_lookup d k = Some v.
+Proof.
+  induction d as [|[k' v'] d IH]; intros Hnd Hin; [contradiction|].
+  cbn [map fst] in Hnd. apply nodupb_cons in Hnd. destruct Hnd as [Hni Hnd].
+  cbn [str_lookup]. destruct Hin as [Heq | Hin].
+  - injection Heq as -> ->. now rewrite bytes_eqb_refl.
+  - destruct (bytes_eqb k k') eqn:E.
+    + apply bytes_eqb_eq in E. subst k'. exfalso. apply Hni. apply in_map_iff. exists (k, v). split; [reflexivity|exact Hin].
+    + apply IH; assumption.
+Qed.
+
+Lemma nodupb_app_l a b : nodupb (a ++ b) = true -> nodupb a = true.
+Proof.
+  induction a as [|x a IH]; [reflexivity|]. cbn [app]. intros H. apply nodupb_cons in H. destruct H as [Hni H].
+  cbn [nodupb]. rewrite (IH H), andb_true_r. apply negb_true_iff.
+  destruct (existsb (bytes_eqb x) a) eqn:E; [|reflexivity].
+  apply existsb_exists in E. destruct E as [y [Hy Heq]]. apply bytes_eqb_eq in Heq. subst y.
+  exfalso. apply Hni. apply in_or_app. now left.
+Qed.
+
+(* the canonical keyword arguments: exactly the fields, in layout order *)
+Lemma kwargs_canonical {V} layout (vals : list V) :
+  layout_ok layout = true -> length vals = length layout ->
+  forall nm v, In (nm, v) (combine (map fst layout) vals) -> str_lookup (combine (map fst layout) vals) nm = Some v.
+Proof.
+  intros Hok Hlen nm v Hin. apply str_lookup_in; [|exact Hin].
+  rewrite combine_fst_length by exact Hlen.
+  unfold layout_ok in Hok. destruct (layout_ftypes layout); [|discriminate].
+  apply andb_true_iff in Hok. destruct Hok as [Hok _]. apply andb_true_iff in Hok. destruct Hok as [Hnd _].
+  now apply nodupb_app_l in Hnd.
+Qed.
+
+Lemma bytes_eqb_neq a b : a <> b -> bytes_eqb a b = false.
+Proof. intros H. destruct (bytes_eqb a b) eqn:E; [|reflexivity]. apply bytes_eqb_eq in E. contradiction. Qed.
+
+Lemma table_entry msgs name layout :
+  table_ok msgs = true -> In (name, layout) msgs ->
+  str_lookup msgs name = Some layout /\ layout_ok layout = true /\ exists fts, layout_ftypes layout = Some fts.
+Proof.
+  intros Hok Hin. unfold table_ok in Hok. apply andb_true_iff in Hok. destruct Hok as [Hnd Hall].
+  assert (Hl : layout_ok layout = true).
+  { rewrite forallb_forall in Hall. apply (Hall (name, layout) Hin). }
+  split; [now apply str_lookup_in|]. split; [exact Hl|].
+  unfold layout_ok in Hl. destruct (layout_ftypes layout) as [fts|]; [now exists fts|discriminate].
+Qed.
+
+Section Ints.
+Variables TxV BlockV HdrV : Type.
+Notation pyv := (pyval TxV BlockV HdrV).
 Lemma pack_uint_le w z bits (v := VInt z : pyv) :
   zrange z bits -> bits = 8 * N.of_nat w ->
   pack_uint false w v = Ret (le_bytes w (Z.to_N z)).
@@ -136,6 +268,38 @@ Proof. intros <-. apply read_app. Qed.
 
 Lemma bool_byte_parse b : negb (b2n (bool_byte b) =? 0) = b.
 Proof. destruct b; reflexivity. Qed.
+
+End Ints.
+Arguments pack_uint_le {TxV BlockV HdrV} w z bits.
+Arguments pack_uint_be {TxV BlockV HdrV} w z bits.
+Arguments n2v_to_N {TxV BlockV HdrV} z bits.
+
+Section P.
+Variables TxV BlockV HdrV : Type.
+Variable parse_T : parser TxV.
+Variable stream_T : TxV -> bytes.
+Variable parse_B : parser BlockV.
+Variable stream_B : BlockV -> bytes.
+Variable parse_z : parser HdrV.
+Variable stream_z : HdrV -> bytes.
+Variable header_of : BlockV -> HdrV.
+Variable ip4 : bytes.
+Variable ict : list Z.
+(* the only facts used about the transaction / block / header codecs (C07, C14) *)
+Hypothesis frame_T : forall v rest, parse_T (stream_T v ++ rest) = Ret (v, rest).
+Hypothesis frame_B : forall v rest, parse_B (stream_B v ++ rest) = Ret (v, rest).
+Hypothesis frame_z : forall v rest, parse_z (stream_z v ++ rest) = Ret (v, rest).
+
+Notation pyv := (pyval TxV BlockV HdrV).
+Notation sc := (stream_codec stream_T stream_B stream_z header_of).
+Notation pc := (parse_codec parse_T parse_B parse_z ip4 ict).
+Notation ss := (stream_struct stream_T stream_B stream_z header_of).
+Notation ps := (parse_struct parse_T parse_B parse_z ip4 ict).
+Notation wire_ := (wire stream_T stream_B stream_z).
+Notation wire_tuple_ := (wire_tuple stream_T stream_B stream_z).
+Notation wire_elem_ := (wire_elem stream_T stream_B stream_z).
+Notation wire_field_ := (wire_field stream_T stream_B stream_z).
+Notation wire_message_ := (wire_message stream_T stream_B stream_z).
 
 (* ---- every codec: declared-type values are written as the wire form and read back, whatever follows ---- *)
 Lemma codec_frame k (v : pyv) rest :
@@ -210,72 +374,6 @@ Proof.
     split; [destruct b; reflexivity|]. cbn [app]. now rewrite bool_byte_parse.
 Qed.
 
-(* ---- the array count loop ------------------------------------------------------------------------------ *)
-Section LoopP.
-Variable elem : parser pyv.
-
-Lemma iter_done m r : Nat.iter m (step elem) (Done r) = Done r.
-Proof.
-  induction m as [|m IH]; [reflexivity|].
-  change (Nat.iter (S m) (step elem) (Done r)) with (step elem (Nat.iter m (step elem) (Done r))).
-  now rewrite IH.
-Qed.
-
-Lemma iter_add (m n : nat) (st : lstate TxV BlockV HdrV) :
-  Nat.iter (m + n) (step elem) st = Nat.iter m (step elem) (Nat.iter n (step elem) st).
-Proof.
-  induction m as [|m IH]; [reflexivity|].
-  change (Nat.iter (S m + n) (step elem) st) with (step elem (Nat.iter (m + n) (step elem) st)).
-  change (Nat.iter (S m) (step elem) (Nat.iter n (step elem) st))
-    with (step elem (Nat.iter m (step elem) (Nat.iter n (step elem) st))).
-  now rewrite IH.
-Qed.
-
-Lemma iter_succ_r (n : nat) (st : lstate TxV BlockV HdrV) :
-  Nat.iter (S n) (step elem) st = Nat.iter n (step elem) (step elem st).
-Proof. replace (S n) with (n + 1)%nat by lia. rewrite iter_add. reflexivity. Qed.
-
-(* loopk k = 2^k applications of step *)
-Lemma loopk_iter k : forall st, loopk elem k st = Nat.iter (2 ^ k) (step elem) st.
-Proof.
-  induction k as [|k IH]; intros st.
-  - destruct st; reflexivity.
-  - destruct st as [c acc s | r].
-    + cbn [loopk]. rewrite !IH, <- iter_add. f_equal. rewrite Nat.pow_succ_r'. lia.
-    + cbn [loopk]. now rewrite iter_done.
-Qed.
-
-Lemma iter_run : forall es enc acc rest,
-  Forall2 (fun e b => forall r, elem (b ++ r) = Ret (e, r)) es enc ->
-  Nat.iter (S (length es)) (step elem) (Running (N.of_nat (length es)) acc (concat enc ++ rest))
-  = Done (Ret (rev acc ++ es, rest)).
-Proof.
-  intros es enc acc rest H. revert acc. induction H as [|e b es enc He _ IH]; intros acc.
-  - cbn [length concat app Nat.iter nat_rect step N.of_nat N.eqb].
-    now rewrite rev_append_rev, !app_nil_r.
-  - rewrite iter_succ_r. cbn [length concat step].
-    replace (N.of_nat (S (length es)) =? 0) with false by lia.
-    rewrite <- app_assoc, He.
-    replace (N.of_nat (S (length es)) - 1) with (N.of_nat (length es)) by lia.
-    rewrite IH. cbn [rev]. now rewrite <- app_assoc.
-Qed.
-
-Lemma loop_capacity : N.of_nat (2 ^ loop_depth) = 36893488147419103232.
-Proof. rewrite Nat2N.inj_pow. reflexivity. Qed.
-
-(* exactly `count` iterations for every count below 2^64: no fuel hypothesis *)
-Lemma parse_array_ok es enc rest :
-  Forall2 (fun e b => forall r, elem (b ++ r) = Ret (e, r)) es enc ->
-  N.of_nat (length es) < 2 ^ 64 ->
-  parse_array elem (N.of_nat (length es)) (concat enc ++ rest) = Ret (es, rest).
-Proof.
-  intros H Hlen. unfold parse_array. rewrite loopk_iter.
-  pose proof loop_capacity as Hcap. remember (2 ^ loop_depth)%nat as X eqn:EX. clear EX.
-  change (2 ^ 64) with 18446744073709551616 in Hlen.
-  replace X with ((X - S (length es)) + S (length es))%nat by lia.
-  rewrite iter_add, (iter_run es enc [] rest H), iter_done. reflexivity.
-Qed.
-End LoopP.
 
 (* ---- parse_struct / stream_struct on formats without arrays ------------------------------------------- *)
 Lemma ps_nil n s : ps n [] s = Ret ([], s).
@@ -408,24 +506,11 @@ Proof.
       cbn [app]. rewrite <- app_assoc. cbn [app]. rewrite ps_array, <- app_assoc, compact_parse by exact Hlen.
       cbn [bind].
       destruct (elems_frame ks l n Hall Hno ltac:(lia)) as [_ HF].
-      rewrite (parse_array_ok _ l _ rest HF Hlen). reflexivity.
+      rewrite (parse_array_ok _ _ _ _ l _ rest HF Hlen). reflexivity.
 Qed.
 
 (* ---- whole messages ---------------------------------------------------------------------------------------- *)
-Lemma ftype_of_text_chars ty ft : ftype_of_text ty = Some ft -> ty = chars_of_ftype ft.
-Proof.
-  unfold ftype_of_text. destruct (ftype_guess ty) as [g|]; [|discriminate].
-  destruct (bytes_eqb ty (chars_of_ftype g)) eqn:E; [|discriminate].
-  intros H. injection H as <-. now apply bytes_eqb_eq.
-Qed.
 
-Lemma opt_only_last_cons ft fts :
-  opt_only_last (ft :: fts) = true -> (fts = [] \/ is_opt ft = false) /\ opt_only_last fts = true.
-Proof.
-  destruct fts as [|ft2 fts]; [intros _; split; [now left|reflexivity]|].
-  cbn [opt_only_last]. intros H. apply andb_true_iff in H. destruct H as [H1 H2].
-  apply negb_true_iff in H1. split; [now right|exact H2].
-Qed.
 
 Lemma fields_frame : forall layout fts (vals : list pyv) kwargs,
   layout_ftypes layout = Some fts -> Forall2 wt_field fts vals ->
@@ -462,20 +547,7 @@ Proof.
       rewrite Hp by lia. fold (layout_types layout). rewrite IHp by (unfold layout_types; lia). reflexivity.
 Qed.
 
-Lemma combine_fst_length {A B C} (l : list (A * B)) (vals : list C) :
-  length vals = length l -> map fst (combine (map fst l) vals) = map fst l.
-Proof.
-  revert vals. induction l as [|[a b] l IH]; intros [|v vals] H; cbn in *; try discriminate; [reflexivity|].
-  f_equal. apply IH. lia.
-Qed.
 
-Lemma layout_ftypes_length layout fts : layout_ftypes layout = Some fts -> length fts = length layout.
-Proof.
-  revert fts. induction layout as [|[nm ty] layout IH]; intros fts H; cbn [layout_ftypes] in H.
-  - now injection H as <-.
-  - destruct (ftype_of_text ty); [|discriminate]. destruct (layout_ftypes layout) eqn:E; [|discriminate].
-    injection H as <-. cbn [length]. now rewrite (IH _ eq_refl).
-Qed.
 
 (* pack = the wire form; reading it back gives the field values under their names and leaves nothing *)
 Lemma message_frame layout fts (vals : list pyv) kwargs :
@@ -491,47 +563,9 @@ Proof.
   split; [exact Hs|]. unfold parse_message. rewrite Hp by lia. reflexivity.
 Qed.
 
-(* association lists with distinct keys *)
-Lemma nodupb_cons x l : nodupb (x :: l) = true -> ~ In x l /\ nodupb l = true.
-Proof.
-  cbn [nodupb]. intros H. apply andb_true_iff in H. destruct H as [H1 H2]. split; [|exact H2].
-  intros Hin. apply negb_true_iff in H1.
-  assert (existsb (bytes_eqb x) l = true) by (apply existsb_exists; exists x; split; [exact Hin|apply bytes_eqb_refl]).
-  congruence.
-Qed.
 
-Lemma str_lookup_in {A} (d : list (bytes * A)) k v :
-  nodupb (map fst d) = true -> In (k, v) d -> str_lookup d k = Some v.
-Proof.
-  induction d as [|[k' v'] d IH]; intros Hnd Hin; [contradiction|].
-  cbn [map fst] in Hnd. apply nodupb_cons in Hnd. destruct Hnd as [Hni Hnd].
-  cbn [str_lookup]. destruct Hin as [Heq | Hin].
-  - injection Heq as -> ->. now rewrite bytes_eqb_refl.
-  - destruct (bytes_eqb k k') eqn:E.
-    + apply bytes_eqb_eq in E. subst k'. exfalso. apply Hni. apply in_map_iff. exists (k, v). split; [reflexivity|exact Hin].
-    + apply IH; assumption.
-Qed.
 
-Lemma nodupb_app_l a b : nodupb (a ++ b) = true -> nodupb a = true.
-Proof.
-  induction a as [|x a IH]; [reflexivity|]. cbn [app]. intros H. apply nodupb_cons in H. destruct H as [Hni H].
-  cbn [nodupb]. rewrite (IH H), andb_true_r. apply negb_true_iff.
-  destruct (existsb (bytes_eqb x) a) eqn:E; [|reflexivity].
-  apply existsb_exists in E. destruct E as [y [Hy Heq]]. apply bytes_eqb_eq in Heq. subst y.
-  exfalso. apply Hni. apply in_or_app. now left.
-Qed.
 
-(* the canonical keyword arguments: exactly the fields, in layout order *)
-Lemma kwargs_canonical layout (vals : list pyv) :
-  layout_ok layout = true -> length vals = length layout ->
-  forall nm v, In (nm, v) (combine (map fst layout) vals) -> str_lookup (combine (map fst layout) vals) nm = Some v.
-Proof.
-  intros Hok Hlen nm v Hin. apply str_lookup_in; [|exact Hin].
-  rewrite combine_fst_length by exact Hlen.
-  unfold layout_ok in Hok. destruct (layout_ftypes layout); [|discriminate].
-  apply andb_true_iff in Hok. destruct Hok as [Hok _]. apply andb_true_iff in Hok. destruct Hok as [Hnd _].
-  now apply nodupb_app_l in Hnd.
-Qed.
 
 Lemma parse_from_data_unfold msgs al post name layout data d rest :
   str_lookup msgs name = Some layout ->
@@ -541,19 +575,7 @@ Lemma parse_from_data_unfold msgs al post name layout data d rest :
    else if bytes_eqb name (str "merkleblock") then post d else Ret d).
 Proof. intros H1 H2. unfold parse_from_data. rewrite H1, H2. reflexivity. Qed.
 
-Lemma bytes_eqb_neq a b : a <> b -> bytes_eqb a b = false.
-Proof. intros H. destruct (bytes_eqb a b) eqn:E; [|reflexivity]. apply bytes_eqb_eq in E. contradiction. Qed.
 
-Lemma table_entry msgs name layout :
-  table_ok msgs = true -> In (name, layout) msgs ->
-  str_lookup msgs name = Some layout /\ layout_ok layout = true /\ exists fts, layout_ftypes layout = Some fts.
-Proof.
-  intros Hok Hin. unfold table_ok in Hok. apply andb_true_iff in Hok. destruct Hok as [Hnd Hall].
-  assert (Hl : layout_ok layout = true).
-  { rewrite forallb_forall in Hall. apply (Hall (name, layout) Hin). }
-  split; [now apply str_lookup_in|]. split; [exact Hl|].
-  unfold layout_ok in Hl. destruct (layout_ftypes layout) as [fts|]; [now exists fts|discriminate].
-Qed.
 
 (* the generic statement over ANY layout table that passes table_ok *)
 Lemma all_messages_generic msgs : table_ok msgs = true ->
@@ -576,15 +598,148 @@ Proof.
   now rewrite (bytes_eqb_neq _ _ Ha), (bytes_eqb_neq _ _ Hm).
 Qed.
 
-(* ---- the generated table ------------------------------------------------------------------------------------ *)
-(* alert: the payload (declared type S, any bytes) must itself parse as an alert sub-message, else
-   post_unpack_alert raises — the exclusion predicate of the known finding alert-payload-not-alert *)
-Definition alert_payload_parses (vals : list pyv) : Prop :=
-  match vals with
-  | VBytes p :: _ => is_ret (parse_message parse_T parse_B parse_z ip4 ict alert_layout p) = true
-  | _ => True
-  end.
 End P.
+
+Section Total.
+Variables TxV BlockV HdrV : Type.
+Variable parse_T : parser TxV.
+Variable parse_B : parser BlockV.
+Variable parse_z : parser HdrV.
+Variable ip4 : bytes.
+Variable ict : list Z.
+Notation pyv := (pyval TxV BlockV HdrV).
+Notation pc := (parse_codec parse_T parse_B parse_z ip4 ict).
+Notation ps := (parse_struct parse_T parse_B parse_z ip4 ict).
+
+(* ---- fuel: parse_struct never runs out of fuel when fuel >= length of the format text ------------------ *)
+Lemma bind_no_oof {A B} (m : outcome A) (f : A -> outcome B) :
+  m <> OutOfFuel -> (forall a, f a <> OutOfFuel) -> bind m f <> OutOfFuel.
+Proof. destruct m; cbn [bind]; intros H1 H2; [apply H2 | discriminate | contradiction]. Qed.
+
+Lemma read_le_no_oof w s : read_le w s <> OutOfFuel.
+Proof. unfold read_le, read. destruct (_ <? _)%nat; discriminate. Qed.
+Lemma read_be_no_oof w s : read_be w s <> OutOfFuel.
+Proof. unfold read_be, read. destruct (_ <? _)%nat; discriminate. Qed.
+Lemma parse_varint_no_oof s : parse_varint s <> OutOfFuel.
+Proof.
+  unfold parse_varint. destruct s as [|b r]; [discriminate|].
+  repeat match goal with |- context [if ?c then _ else _] => destruct c end;
+    try apply read_le_no_oof; discriminate.
+Qed.
+Lemma parse_varint_bound s v r : parse_varint s = Ret (v, r) -> v < 2 ^ 64.
+Proof.
+  unfold parse_varint. destruct s as [|b t]; [discriminate|]. pose proof (b2n_lt b) as Hb.
+  change (2 ^ 64) with 18446744073709551616.
+  repeat match goal with |- context [if ?c then _ else _] => destruct c end; intros H;
+    try (apply read_le_inv in H; destruct H as [_ H];
+         first [ change (256 ^ N.of_nat 2) with 65536 in H | change (256 ^ N.of_nat 4) with 4294967296 in H
+               | change (256 ^ N.of_nat 8) with 18446744073709551616 in H ]; lia).
+  injection H as <- _. lia.
+Qed.
+
+Lemma lift_no_oof {A} (p : parser A) (f : A -> pyv) s : p s <> OutOfFuel -> lift p f s <> OutOfFuel.
+Proof. intros H. unfold lift. apply bind_no_oof; [exact H|]. intros [a r]. discriminate. Qed.
+
+Lemma pc_no_oof k s : k <> CT -> k <> CB -> k <> Cz -> pc k s <> OutOfFuel.
+Proof.
+  intros HT HB Hz. destruct k; try contradiction; cbn [parse_codec];
+    try (apply lift_no_oof; first [apply parse_varint_no_oof | apply read_le_no_oof | apply read_be_no_oof]).
+  - (* S *) apply lift_no_oof. unfold parse_varstr. pose proof (parse_varint_no_oof s).
+    destruct (parse_varint s) as [[n r]| |]; try discriminate; [|contradiction].
+    destruct (_ <=? _); discriminate.
+  - unfold read. cbv beta iota. discriminate.
+  - unfold read. cbv beta iota. discriminate.
+  - destruct s; discriminate.
+  - (* A *) unfold parse_addr. apply bind_no_oof; [apply read_le_no_oof|]. intros [sv s1]. unfold read. cbv beta iota.
+    apply bind_no_oof; [apply read_be_no_oof|]. intros [p s3]. apply bind_no_oof; [|discriminate].
+    unfold mk_addr. cbv zeta. repeat match goal with |- context [if ?c then _ else _] => destruct c end; discriminate.
+  - (* v *) unfold parse_inv. apply bind_no_oof; [apply read_le_no_oof|]. intros [ty s1]. unfold read. cbv beta iota.
+    apply bind_no_oof; [|discriminate]. unfold mk_inv. cbn [negb andb]. repeat match goal with |- context [if ?c then _ else _] => destruct c end; discriminate.
+  - destruct s; discriminate.
+Qed.
+
+Section LoopTotal.
+Variable elem : parser pyv.
+Hypothesis elem_total : forall s, elem s <> OutOfFuel.
+Lemma loop_total : forall (c : nat) acc s m, (S c <= m)%nat ->
+  exists r, Nat.iter m (step elem) (Running (N.of_nat c) acc s) = Done r /\ r <> OutOfFuel.
+Proof.
+  induction c as [|c IH]; intros acc s m Hm; (destruct m as [|m]; [lia|]); rewrite iter_succ_r.
+  - cbn [step N.of_nat N.eqb]. rewrite iter_done. eexists. split; [reflexivity|discriminate].
+  - cbn [step]. replace (N.of_nat (S c) =? 0) with false by lia.
+    pose proof (elem_total s) as He. destruct (elem s) as [[v s']| e |]; [| |contradiction].
+    + replace (N.of_nat (S c) - 1) with (N.of_nat c) by lia. apply IH. lia.
+    + rewrite iter_done. eexists. split; [reflexivity|discriminate].
+Qed.
+Lemma parse_array_no_oof count s : count < 2 ^ 64 -> parse_array elem count s <> OutOfFuel.
+Proof.
+  intros Hc. unfold parse_array. rewrite loopk_iter.
+  pose proof loop_capacity as Hcap. remember (2 ^ loop_depth)%nat as X eqn:EX. clear EX.
+  change (2 ^ 64) with 18446744073709551616 in Hc.
+  rewrite <- (N2Nat.id count).
+  destruct (loop_total (N.to_nat count) [] s X ltac:(lia)) as [r [-> Hr]]. exact Hr.
+Qed.
+End LoopTotal.
+
+Lemma find_close_split l a b : find_close l = Some (a, b) -> l = a ++ rbracket :: b.
+Proof.
+  revert a b. induction l as [|c l IH]; intros a b; cbn [find_close]; [discriminate|].
+  destruct (byte_eqb c rbracket) eqn:E.
+  - intros H. injection H as <- <-. apply byte_eqb_eq in E. now subst c.
+  - destruct (find_close l) as [[a' b']|]; [|discriminate]. intros H. injection H as <- <-.
+    cbn [app]. f_equal. now apply IH.
+Qed.
+
+Lemma ps_no_oof : forall n fmt s, (length fmt <= n)%nat ->
+  (forall c k, In c fmt -> codec_of_char c = Some k -> forall s', pc k s' <> OutOfFuel) ->
+  ps n fmt s <> OutOfFuel.
+Proof.
+  induction n as [|n IH]; intros fmt s Hlen Hc.
+  - destruct fmt; [discriminate|cbn [length] in Hlen; lia].
+  - destruct fmt as [|c fmt]; [discriminate|]. cbn [length] in Hlen. cbn [parse_struct].
+    destruct (byte_eqb c lbracket).
+    + destruct (find_close fmt) as [[sub more]|] eqn:Ef; [|discriminate].
+      apply find_close_split in Ef. subst fmt. rewrite app_length in Hlen. cbn [length] in Hlen.
+      assert (Hsub : forall c' k, In c' sub -> codec_of_char c' = Some k -> forall s', pc k s' <> OutOfFuel).
+      { intros c' k Hin. apply Hc. right. apply in_or_app. now left. }
+      assert (Hmore : forall c' k, In c' more -> codec_of_char c' = Some k -> forall s', pc k s' <> OutOfFuel).
+      { intros c' k Hin. apply Hc. right. apply in_or_app. right. now right. }
+      pose proof (parse_varint_no_oof s) as Hv.
+      destruct (parse_varint s) as [[count s1]| |] eqn:Ev; [|discriminate|contradiction].
+      cbn [bind]. apply parse_varint_bound in Ev.
+      apply bind_no_oof.
+      * apply parse_array_no_oof; [|exact Ev]. intros s0. apply bind_no_oof; [apply IH; [lia|exact Hsub]|].
+        intros [items r]. discriminate.
+      * intros [arr s2]. apply bind_no_oof; [apply IH; [lia|exact Hmore]|]. intros [rest s3]. discriminate.
+    + destruct (codec_of_char c) as [k|] eqn:Ek; [|discriminate].
+      apply bind_no_oof; [apply (Hc c k); [now left|exact Ek]|]. intros [v s1].
+      apply bind_no_oof; [apply IH; [lia|]|].
+      * intros c' k' Hin. apply Hc. now right.
+      * intros [rest s2]. discriminate.
+Qed.
+
+(* fuel sufficiency of parse_message: with total Tx/Block/header parsers no input runs out of fuel *)
+Lemma parse_message_no_oof layout data :
+  (forall s, parse_T s <> OutOfFuel) -> (forall s, parse_B s <> OutOfFuel) -> (forall s, parse_z s <> OutOfFuel) ->
+  parse_message parse_T parse_B parse_z ip4 ict layout data <> OutOfFuel.
+Proof.
+  intros HT HB Hz. unfold parse_message. apply bind_no_oof; [|intros [items rest]; discriminate].
+  apply ps_no_oof; [lia|]. intros c k _ _ s'.
+  destruct k; try (apply pc_no_oof; discriminate); cbn [parse_codec]; apply lift_no_oof; auto.
+Qed.
+
+Definition no_object_codec (c : byte) : bool :=
+  match codec_of_char c with Some CT | Some CB | Some Cz => false | _ => true end.
+Lemma parse_message_no_oof_plain layout data :
+  forallb no_object_codec (layout_types layout) = true ->
+  parse_message parse_T parse_B parse_z ip4 ict layout data <> OutOfFuel.
+Proof.
+  intros Hall. unfold parse_message. apply bind_no_oof; [|intros [items rest]; discriminate].
+  apply ps_no_oof; [lia|]. intros c k Hin Hk s'. rewrite forallb_forall in Hall. specialize (Hall c Hin).
+  unfold no_object_codec in Hall. rewrite Hk in Hall. apply pc_no_oof; intros ->; discriminate.
+Qed.
+End Total.
+
 
 Lemma std_table_ok : table_ok std_messages = true.
 Proof. vm_compute. reflexivity. Qed.
@@ -649,22 +804,21 @@ Qed.
 (* parse_from_data including the post-processing steps *)
 Lemma std_parse_from_data : forall name layout fts (vals : list pyv),
   In (name, layout) std_messages -> layout_ftypes layout = Some fts -> Forall2 wt_field fts vals ->
-  (name = str "alert" -> alert_payload_parses TxV BlockV HdrV parse_T parse_B parse_z ip4_header inv_checked_types vals) ->
   (name = str "merkleblock" -> exists extra,
       post_merkleblock (combine (map fst layout) vals) = Ret (combine (map fst layout) vals ++ extra)) ->
   exists extra, std_parse name (wire_message_ fts vals) = Ret (combine (map fst layout) vals ++ extra).
 Proof.
-  intros name layout fts vals Hin Hft Hwt Halert Hmb.
+  intros name layout fts vals Hin Hft Hwt Hmb.
   destruct (table_entry std_messages name layout std_table_ok Hin) as [Hlk [Hl _]].
-  assert (Hkw := kwargs_canonical TxV BlockV HdrV layout vals Hl).
+  assert (Hkw := kwargs_canonical layout vals Hl).
   assert (Hlen : length vals = length layout).
-  { rewrite <- (layout_ftypes_length layout fts Hft). symmetry. eapply Forall2_length. exact Hwt. }
+  { rewrite <- (layout_ftypes_length layout fts Hft). symmetry. clear -Hwt. induction Hwt; cbn [length]; congruence. }
   destruct (message_frame TxV BlockV HdrV parse_T stream_T parse_B stream_B parse_z stream_z header_of
               ip4_header inv_checked_types frame_T frame_B frame_z layout fts vals _ Hl Hft Hwt (Hkw Hlen)) as [_ Hp].
   rewrite (parse_from_data_unfold TxV BlockV HdrV parse_T parse_B parse_z ip4_header inv_checked_types
              std_messages alert_layout post_merkleblock name layout _ _ _ Hlk Hp).
   destruct (bytes_eqb name (str "alert")) eqn:Ea.
-  - apply bytes_eqb_eq in Ea. subst name. specialize (Halert eq_refl).
+  - apply bytes_eqb_eq in Ea. subst name.
     assert (Hl0 : str_lookup std_messages (str "alert") = Some [(str "payload", str "S"); (str "signature", str "S")])
       by (vm_compute; reflexivity).
     rewrite Hl0 in Hlk. injection Hlk as <-.
@@ -673,15 +827,163 @@ Proof.
     inversion Hvals1 as [|ft2 v2 fts2 vals2 Hv2 Hvals2]; subst.
     inversion Hvals2; subst.
     cbn [wt_field wt] in Hv1. destruct v1; try contradiction.
-    cbn [alert_payload_parses] in Halert.
     unfold post_unpack_alert. cbn [map fst combine].
-    change (str_lookup ((str "payload", VBytes b) :: (str "signature", v2) :: nil) (str "payload"))
-      with (Some (VBytes b : pyv)).
-    destruct (parse_message parse_T parse_B parse_z ip4_header inv_checked_types alert_layout b) as [[d1 r]| |];
-      try discriminate.
-    cbn [bind]. eexists. reflexivity.
+    match goal with |- context [str_lookup ?d ?k] => change (str_lookup d k) with (Some (VBytes b : pyv)) end.
+    cbv beta iota.
+    pose proof (parse_message_no_oof_plain TxV BlockV HdrV parse_T parse_B parse_z ip4_header inv_checked_types
+                  alert_layout b ltac:(vm_compute; reflexivity)) as Hno.
+    destruct (parse_message parse_T parse_B parse_z ip4_header inv_checked_types alert_layout b) as [[d1 r]| e |];
+      [| |contradiction]; cbn [bind]; eexists; reflexivity.
   - destruct (bytes_eqb name (str "merkleblock")) eqn:Em.
     + apply bytes_eqb_eq in Em. exact (Hmb Em).
     + exists []. now rewrite app_nil_r.
 Qed.
 End Std.
+
+(* ---- per-codec statements in explicit form (Props/C16.v quotes these) ------------------------------------- *)
+Section Named.
+Variables TxV BlockV HdrV : Type.
+Variable parse_T : parser TxV.
+Variable stream_T : TxV -> bytes.
+Variable parse_B : parser BlockV.
+Variable stream_B : BlockV -> bytes.
+Variable parse_z : parser HdrV.
+Variable stream_z : HdrV -> bytes.
+Variable header_of : BlockV -> HdrV.
+Variable ip4 : bytes.
+Variable ict : list Z.
+Hypothesis frame_T : forall v rest, parse_T (stream_T v ++ rest) = Ret (v, rest).
+Hypothesis frame_B : forall v rest, parse_B (stream_B v ++ rest) = Ret (v, rest).
+Hypothesis frame_z : forall v rest, parse_z (stream_z v ++ rest) = Ret (v, rest).
+Notation pyv := (pyval TxV BlockV HdrV).
+Notation sc := (stream_codec stream_T stream_B stream_z header_of).
+Notation pc := (parse_codec parse_T parse_B parse_z ip4 ict).
+Notation cf := (codec_frame TxV BlockV HdrV parse_T stream_T parse_B stream_B parse_z stream_z header_of ip4 ict
+                  frame_T frame_B frame_z).
+
+Ltac by_frame k v rest H := exact (cf k v rest H ltac:(intros; discriminate)).
+
+Lemma rt_I (z : Z) rest : (0 <= z < 2 ^ 64)%Z ->
+  sc CI (VInt z) = Ret (compact_size (Z.to_N z)) /\ pc CI (compact_size (Z.to_N z) ++ rest) = Ret (VInt z, rest).
+Proof. intros H. by_frame CI (VInt z : pyv) rest H. Qed.
+Lemma rt_S (b : bytes) rest : N.of_nat (length b) < 2 ^ 63 ->
+  sc CS (VBytes b) = Ret (compact_size (N.of_nat (length b)) ++ b) /\
+  pc CS ((compact_size (N.of_nat (length b)) ++ b) ++ rest) = Ret (VBytes b, rest).
+Proof. intros H. by_frame CS (VBytes b : pyv) rest H. Qed.
+Lemma rt_h (z : Z) rest : (0 <= z < 2 ^ 16)%Z ->
+  sc Ch (VInt z) = Ret (be_bytes 2 (Z.to_N z)) /\ pc Ch (be_bytes 2 (Z.to_N z) ++ rest) = Ret (VInt z, rest).
+Proof. intros H. by_frame Ch (VInt z : pyv) rest H. Qed.
+Lemma rt_L (z : Z) rest : (0 <= z < 2 ^ 32)%Z ->
+  sc CL (VInt z) = Ret (le_bytes 4 (Z.to_N z)) /\ pc CL (le_bytes 4 (Z.to_N z) ++ rest) = Ret (VInt z, rest).
+Proof. intros H. by_frame CL (VInt z : pyv) rest H. Qed.
+Lemma rt_Q (z : Z) rest : (0 <= z < 2 ^ 64)%Z ->
+  sc CQ (VInt z) = Ret (le_bytes 8 (Z.to_N z)) /\ pc CQ (le_bytes 8 (Z.to_N z) ++ rest) = Ret (VInt z, rest).
+Proof. intros H. by_frame CQ (VInt z : pyv) rest H. Qed.
+Lemma rt_1 (z : Z) rest : (0 <= z < 2 ^ 8)%Z ->
+  sc C1 (VInt z) = Ret (le_bytes 1 (Z.to_N z)) /\ pc C1 (le_bytes 1 (Z.to_N z) ++ rest) = Ret (VInt z, rest).
+Proof. intros H. by_frame C1 (VInt z : pyv) rest H. Qed.
+Lemma rt_6 (z : Z) rest : (0 <= z < 2 ^ 48)%Z ->
+  sc C6 (VInt z) = Ret (le_bytes 6 (Z.to_N z)) /\ pc C6 (le_bytes 6 (Z.to_N z) ++ rest) = Ret (VInt z, rest).
+Proof. intros H. by_frame C6 (VInt z : pyv) rest H. Qed.
+Lemma rt_hash (b : bytes) rest : length b = 32%nat ->
+  sc CHash (VBytes b) = Ret b /\ pc CHash (b ++ rest) = Ret (VBytes b, rest).
+Proof. intros H. by_frame CHash (VBytes b : pyv) rest H. Qed.
+Lemma rt_at (b : bytes) rest : length b = 16%nat ->
+  sc CAt (VBytes b) = Ret b /\ pc CAt (b ++ rest) = Ret (VBytes b, rest).
+Proof. intros H. by_frame CAt (VBytes b : pyv) rest H. Qed.
+Lemma rt_b (b : bool) rest :
+  sc Cb (VBool b) = Ret [bool_byte b] /\ pc Cb (bool_byte b :: rest) = Ret (VBool b, rest).
+Proof. by_frame Cb (VBool b : pyv) rest I. Qed.
+Lemma rt_A (s : Z) (ip : bytes) (p : Z) rest : (0 <= s < 2 ^ 64)%Z -> length ip = 16%nat -> (0 <= p < 2 ^ 16)%Z ->
+  sc CA (VAddr s ip p) = Ret (le_bytes 8 (Z.to_N s) ++ ip ++ be_bytes 2 (Z.to_N p)) /\
+  pc CA ((le_bytes 8 (Z.to_N s) ++ ip ++ be_bytes 2 (Z.to_N p)) ++ rest) = Ret (VAddr s ip p, rest).
+Proof. intros H1 H2 H3. by_frame CA (VAddr s ip p : pyv) rest (conj H1 (conj H2 H3)). Qed.
+Lemma rt_v (t : Z) (d : bytes) rest : (0 <= t < 2 ^ 32)%Z -> length d = 32%nat ->
+  sc Cv (VInv t d) = Ret (le_bytes 4 (Z.to_N t) ++ d) /\
+  pc Cv ((le_bytes 4 (Z.to_N t) ++ d) ++ rest) = Ret (VInv t d, rest).
+Proof. intros H1 H2. by_frame Cv (VInv t d : pyv) rest (conj H1 H2). Qed.
+Lemma rt_T (t : TxV) rest : sc CT (VTx t) = Ret (stream_T t) /\ pc CT (stream_T t ++ rest) = Ret (VTx t, rest).
+Proof. by_frame CT (VTx t : pyv) rest I. Qed.
+Lemma rt_B (b : BlockV) rest : sc CB (VBlock b) = Ret (stream_B b) /\ pc CB (stream_B b ++ rest) = Ret (VBlock b, rest).
+Proof. by_frame CB (VBlock b : pyv) rest I. Qed.
+Lemma rt_z (h : HdrV) rest : sc Cz (VHdr h) = Ret (stream_z h) /\ pc Cz (stream_z h ++ rest) = Ret (VHdr h, rest).
+Proof. by_frame Cz (VHdr h : pyv) rest I. Qed.
+Lemma rt_O_present (b : bool) rest :
+  sc CO (VBool b) = Ret [bool_byte b] /\ pc CO (bool_byte b :: rest) = Ret (VBool b, rest).
+Proof. by_frame CO (VBool b : pyv) rest I. Qed.
+Lemma rt_O_absent : sc CO VNone = Ret [] /\ pc CO [] = Ret (VNone, []).
+Proof. split; reflexivity. Qed.
+(* ... and an absent value is read ONLY at the end of the stream: 'O' can only be a last field *)
+Lemma O_absent_only_at_end s r : pc CO s = Ret (VNone, r) -> s = [].
+Proof. destruct s; [reflexivity|]. cbn [parse_codec]. intros H. discriminate. Qed.
+
+(* what the code does with byte strings of the wrong length: '#' / '@' write v[:n] and read n bytes without
+   any check, so the length hypothesis is NECESSARY for the round trip (except for a short value at the very
+   end of the stream, which reads back as itself) *)
+Lemma fixed_length_necessary k n (b : bytes) rest : (k = CHash /\ n = 32%nat) \/ (k = CAt /\ n = 16%nat) ->
+  sc k (VBytes b) = Ret (firstn n b) /\
+  (pc k (firstn n b ++ rest) = Ret (VBytes b, rest) -> length b = n \/ (rest = [] /\ (length b < n)%nat)).
+Proof.
+  intros Hk.
+  assert (Hs : sc k (VBytes b) = Ret (firstn n b) /\ pc k (firstn n b ++ rest)
+               = Ret (VBytes (firstn n (firstn n b ++ rest)), skipn n (firstn n b ++ rest))).
+  { destruct Hk as [[-> ->]|[-> ->]]; split; reflexivity. }
+  destruct Hs as [Hs Hp]. split; [exact Hs|]. rewrite Hp. intros H. injection H as Hf Hr.
+  destruct (Nat.le_gt_cases n (length b)) as [Hge|Hlt].
+  - left. assert (Hl : length (firstn n b) = n) by (rewrite firstn_length; lia).
+    rewrite <- Hl in Hf at 1. rewrite firstn_app_exact in Hf. rewrite <- Hf. exact Hl.
+  - right. rewrite (firstn_all2 b) in Hf by lia.
+    assert (Hl : length (firstn n (b ++ rest)) = length b) by (now rewrite Hf).
+    rewrite firstn_length, app_length in Hl. destruct rest; [split; [reflexivity|exact Hlt]|cbn [length] in Hl; lia].
+Qed.
+
+(* the 6-byte codec accepts any unsigned 64-bit value and silently keeps its low 48 bits *)
+Lemma le_decode_encode_mod w : forall v, le_decode (le_encode w v) = v mod 256 ^ N.of_nat w.
+Proof.
+  induction w as [|w IH]; intros v.
+  - cbn [le_encode le_decode]. change (256 ^ N.of_nat 0) with 1. now rewrite N.mod_1_r.
+  - cbn [le_encode le_decode]. rewrite IH, b2n_n2b_mod, Nat2N.inj_succ, N.pow_succ_r' by lia.
+    assert (256 ^ N.of_nat w <> 0) by (apply N.pow_nonzero; lia).
+    rewrite N.mod_mul_r by lia. reflexivity.
+Qed.
+Lemma six_truncates (z : Z) rest : (0 <= z < 2 ^ 64)%Z ->
+  sc C6 (VInt z) = Ret (le_bytes 6 (Z.to_N z)) /\
+  pc C6 (le_bytes 6 (Z.to_N z) ++ rest) = Ret (VInt (z mod 2 ^ 48), rest).
+Proof.
+  intros H. assert (H64 : zrange z 64) by exact H. cbn [stream_codec parse_codec].
+  rewrite (pack_uint_le 8 z 64) by (auto; reflexivity). cbn [bind].
+  rewrite !le_bytes_eq. change 8%nat with (6 + 2)%nat. rewrite firstn_le_encode. split; [reflexivity|].
+  unfold lift, read_le. pose proof (read_app (le_encode 6 (Z.to_N z)) rest) as E.
+  rewrite le_encode_length in E. rewrite E, le_encode_length. cbn [Nat.ltb Nat.leb bind].
+  rewrite le_decode_encode_mod. unfold n2v. do 2 f_equal.
+  change (256 ^ N.of_nat 6) with 281474976710656. change (2 ^ 48)%Z with 281474976710656%Z. lia.
+Qed.
+End Named.
+
+(* PeerAddress(services, ip, port): a 4-byte address becomes the IPv4-mapped 16-byte form, a 16-byte one is kept,
+   anything else is refused; the object then meets the declared type of 'A' when services/port are in range *)
+Lemma peer_address_forms {TxV BlockV HdrV} (s : Z) (ip : bytes) (p : Z) :
+  (length ip = 4%nat -> @mk_addr TxV BlockV HdrV ip4_header s ip p = Ret (VAddr s (ip4_header ++ ip) p)
+                        /\ length (ip4_header ++ ip) = 16%nat) /\
+  (length ip = 16%nat -> @mk_addr TxV BlockV HdrV ip4_header s ip p = Ret (VAddr s ip p)) /\
+  (length ip <> 4%nat -> length ip <> 16%nat -> @mk_addr TxV BlockV HdrV ip4_header s ip p = Raise E_ASSERT).
+Proof.
+  unfold mk_addr. repeat split.
+  - rewrite H. cbn [Nat.eqb]. rewrite app_length, H. reflexivity.
+  - rewrite app_length, H. reflexivity.
+  - intros H. rewrite H. reflexivity.
+  - intros H4 H16. destruct (length ip =? 4)%nat eqn:E4; [apply Nat.eqb_eq in E4; contradiction|].
+    destruct (length ip =? 16)%nat eqn:E16; [apply Nat.eqb_eq in E16; contradiction|reflexivity].
+Qed.
+
+Lemma inv_item_forms {TxV BlockV HdrV} (t : Z) (d : bytes) :
+  (length d = 32%nat -> (t = 1 \/ t = 2 \/ t = 3)%Z -> @mk_inv TxV BlockV HdrV inv_checked_types t d false = Ret (VInv t d)) /\
+  (length d = 32%nat -> @mk_inv TxV BlockV HdrV inv_checked_types t d true = Ret (VInv t d)) /\
+  (length d <> 32%nat -> forall dc, @mk_inv TxV BlockV HdrV inv_checked_types t d dc = Raise E_ASSERT).
+Proof.
+  unfold mk_inv. repeat split.
+  - intros H Ht. rewrite H. destruct Ht as [->|[->|->]]; reflexivity.
+  - intros H. rewrite H. reflexivity.
+  - intros H dc. destruct (length d =? 32)%nat eqn:E; [apply Nat.eqb_eq in E; contradiction|].
+    destruct (negb dc && _); reflexivity.
+Qed.
